@@ -233,11 +233,19 @@ def _order_info_maker(order_info_cls, trade_cls):
 
 
 ########################################################################################################################
-# Status tables. These mirror the lookup tables in basana/external/binance/helpers.py and
-# basana/external/bitstamp/exchange.py (OrderInfo.is_open). The booleans come from the exchange semantics.
+# Status tables, written independently of the code under test (the booleans come from the exchange semantics: an order is
+# open while it can still trade).
 #
-# Statuses documented by Binance that the code's table does NOT know (=> AssertionError at runtime), left out on
-# purpose: PENDING_NEW, EXPIRED_IN_MATCH.
+# MANDATORY tables: every status the exchanges document and the property quantifies over ("every documented order status").
+#   Binance order status: NEW, PARTIALLY_FILLED, FILLED, CANCELED, PENDING_CANCEL, REJECTED, EXPIRED.
+#   Binance order list (OCO) status, field listOrderStatus: EXECUTING, ALL_DONE, REJECT.
+#   Bitstamp order status: Open, Finished, Expired, Canceled.
+# IF-KNOWN tables: statuses that newer revisions of the Binance enum documentation list (PENDING_NEW: the order waits for the
+#   working order of its list, it can still trade -> open; EXPIRED_IN_MATCH: expired by self-trade prevention -> closed). The
+#   documentation cannot be consulted offline, so nothing is claimed about a library that REFUSES them loudly (the current
+#   tree raises AssertionError "No mapping for ..."); but a library that maps them must map them to the flag given here.
+# Statuses found in the library's own tables (library_status_tables()) that neither table knows are fed as well and counted
+# in the evidence ("status-not-in-harness-table"), without a verdict.
 
 BINANCE_ORDER_STATUS = {
     "NEW": True,
@@ -247,6 +255,10 @@ BINANCE_ORDER_STATUS = {
     "CANCELED": False,
     "REJECTED": False,
     "EXPIRED": False,
+}
+BINANCE_ORDER_STATUS_IF_KNOWN = {
+    "PENDING_NEW": True,
+    "EXPIRED_IN_MATCH": False,
 }
 
 BINANCE_OCO_STATUS = {
@@ -261,6 +273,41 @@ BITSTAMP_STATUS_TABLE = {
     "Expired": False,
     "Canceled": False,
 }
+
+STATUS_FAMILIES = {
+    "binance.order": dict(table=BINANCE_ORDER_STATUS, if_known=BINANCE_ORDER_STATUS_IF_KNOWN),
+    "binance.oco": dict(table=BINANCE_OCO_STATUS, if_known={}),
+    "bitstamp.order": dict(table=BITSTAMP_STATUS_TABLE, if_known={}),
+}
+
+
+def library_status_tables():
+    """{family: {status: flag}} read from the dict literals in the library's own status functions (by parsing their source;
+    {} when a function is not written as a table). Used ONLY to extend the alphabet that is fed, never as the expectation."""
+    import ast
+    import inspect
+    import textwrap
+    from basana.external.binance import helpers as b_helpers
+    found = {}
+    sources = {
+        "binance.order": lambda: getattr(b_helpers, "order_status_is_open", None),
+        "binance.oco": lambda: getattr(b_helpers, "oco_order_status_is_open", None),
+        "bitstamp.order": lambda: getattr(getattr(s_exchange.OrderInfo, "is_open", None), "fget", None),
+    }
+    for family, get in sources.items():
+        keys = {}
+        try:
+            tree = ast.parse(textwrap.dedent(inspect.getsource(get())))
+            for node in ast.walk(tree):
+                if isinstance(node, ast.Dict):
+                    for k, v in zip(node.keys, node.values):
+                        if isinstance(k, ast.Constant) and isinstance(k.value, str) and isinstance(v, ast.Constant) \
+                                and isinstance(v.value, bool):
+                            keys[k.value] = v.value
+        except Exception:  # noqa
+            keys = {}
+        found[family] = keys
+    return found
 
 
 ########################################################################################################################
@@ -630,7 +677,8 @@ def _bar_co_set(attr_prefix="", path_prefix=()):
 
 
 def _status(path, table):
-    return {"path": list(path), "table": dict(table)}
+    family = next(name for name, fam in STATUS_FAMILIES.items() if fam["table"] is table)
+    return {"path": list(path), "table": dict(table), "if_known": dict(STATUS_FAMILIES[family]["if_known"]), "family": family}
 
 
 def _order_info_entry(name, order_info_cls, trade_cls, order_payload, trade_payload):
@@ -1234,6 +1282,132 @@ def selfcheck(verbose=True):
         print(summary + "; %d failures" % len(failures))
     assert not failures, "%d selfcheck failures:\n%s" % (len(failures), "\n".join(failures))
     return counts
+
+
+########################################################################################################################
+# Model exchanges for the account-level read API (C17): tiny in-memory exchanges that answer the REST calls which
+# Account.get_order_info / get_open_orders / get_balances / cancel_order (Binance spot, cross and isolated margin) and
+# Exchange.get_order_info / get_open_orders / get_balances / get_balance / cancel_order (Bitstamp) make, the way the real
+# exchanges do: one resource per call, selected by the transmitted parameters. They are plugged into worlds.http.Server.route.
+# Nothing here decodes anything: documents are stored and served as they are.
+
+import urllib.parse
+
+
+def request_params(req):
+    """Parameters of a request received by worlds.http.Server (query string and form body)."""
+    params = dict(urllib.parse.parse_qsl(req["body"].decode(), keep_blank_values=True))
+    params.update(urllib.parse.parse_qsl(req["raw_path"].partition("?")[2], keep_blank_values=True))
+    return params
+
+
+class BinanceModel:
+    """Stores per account kind ("spot", "cross", "iso"): orders (documents as GET order returns them), trades per order id,
+    canceled-order documents per order id, the account document."""
+
+    PATHS = {
+        "/api/v3/order": ("spot", "order"), "/api/v3/myTrades": ("spot", "trades"), "/api/v3/openOrders": ("spot", "open"),
+        "/api/v3/account": ("spot", "account"),
+        "/sapi/v1/margin/order": ("margin", "order"), "/sapi/v1/margin/myTrades": ("margin", "trades"),
+        "/sapi/v1/margin/openOrders": ("margin", "open"), "/sapi/v1/margin/account": ("cross", "account"),
+        "/sapi/v1/margin/isolated/account": ("iso", "account"),
+    }
+
+    def __init__(self):
+        self.orders = {"spot": [], "cross": [], "iso": []}
+        self.trades = {"spot": {}, "cross": {}, "iso": {}}
+        self.canceled = {"spot": {}, "cross": {}, "iso": {}}
+        self.account = {"spot": {"balances": []}, "cross": {"userAssets": []}, "iso": {"assets": []}}
+        self.log = []
+
+    @staticmethod
+    def _error(status, code, msg):
+        return status, {"code": code, "msg": msg}
+
+    def route(self, req):
+        path = req["raw_path"].partition("?")[0]
+        params = request_params(req)
+        where = self.PATHS.get(path)
+        if where is None:
+            return self._error(404, -1, f"unknown endpoint {path}")
+        kind, what = where
+        if kind == "margin":
+            flag = params.get("isIsolated", "false").lower()
+            if flag not in ("true", "false"):
+                return self._error(400, -1100, "Illegal characters found in parameter 'isIsolated'")
+            kind = "iso" if flag == "true" else "cross"
+        self.log.append((req["method"], kind, what, params))
+        if what == "account":
+            return (200, self.account[kind]) if req["method"] == "GET" else self._error(405, -1, "method")
+        if what == "open":
+            if req["method"] != "GET":
+                return self._error(405, -1, "method")
+            sym = params.get("symbol")
+            return 200, [o for o in self.orders[kind] if o.get("_open") and (sym is None or o["symbol"] == sym)]
+        if what == "trades":
+            if req["method"] != "GET" or "symbol" not in params:
+                return self._error(400, -1102, "Mandatory parameter 'symbol' was not sent")
+            out = []
+            for oid, trades in self.trades[kind].items():
+                if "orderId" in params and str(oid) != params["orderId"]:
+                    continue
+                out += [t for t in trades if t["symbol"] == params["symbol"]]
+            return 200, out
+        # order: GET = query, DELETE = cancel
+        if "symbol" not in params:
+            return self._error(400, -1102, "Mandatory parameter 'symbol' was not sent")
+        match = [o for o in self.orders[kind] if o["symbol"] == params["symbol"] and (
+            ("orderId" in params and str(o["orderId"]) == params["orderId"]) or
+            ("origClientOrderId" in params and o["clientOrderId"] == params["origClientOrderId"]))]
+        if len(match) != 1:
+            return self._error(400, -2013, "Order does not exist.")
+        if req["method"] == "GET":
+            return 200, {k: v for k, v in match[0].items() if not k.startswith("_")}
+        if req["method"] == "DELETE":
+            doc = self.canceled[kind].get(match[0]["orderId"])
+            return (200, doc) if doc is not None else self._error(400, -2011, "Unknown order sent.")
+        return self._error(405, -1, "method")
+
+
+class BitstampModel:
+    def __init__(self):
+        self.orders = []        # order_status documents, plus "_pair" (url symbol) and "_open_doc" (open_orders entry or None)
+        self.balances = []      # account_balances entries
+        self.canceled = {}      # id -> cancel_order document
+        self.log = []
+
+    def route(self, req):
+        path = req["raw_path"].partition("?")[0]
+        params = request_params(req)
+        self.log.append((req["method"], path, params))
+        if req["method"] != "POST":
+            return 405, {"status": "error", "reason": "method", "code": "API0000"}
+        if path == "/api/v2/order_status/":
+            match = [o for o in self.orders if ("id" in params and str(o["id"]) == params["id"]) or
+                     ("client_order_id" in params and o.get("client_order_id") == params["client_order_id"])]
+            if len(match) != 1:
+                return 404, {"status": "error", "reason": "Order not found.", "code": "API5014"}
+            doc = {k: v for k, v in match[0].items() if not k.startswith("_")}
+            if params.get("omit_transactions", "").lower() == "true":
+                doc.pop("transactions", None)
+            return 200, doc
+        m = re.fullmatch(r"/api/v2/open_orders/([a-z0-9]+)/", path)
+        if m:
+            return 200, [o["_open_doc"] for o in self.orders if o.get("_open_doc") is not None and m.group(1) in ("all", o["_pair"])]
+        if path == "/api/v2/account_balances/":
+            return 200, list(self.balances)
+        m = re.fullmatch(r"/api/v2/account_balances/([a-z0-9]+)/", path)
+        if m:
+            match = [x for x in self.balances if x["currency"] == m.group(1)]
+            if len(match) != 1:
+                return 404, {"status": "error", "reason": "Currency not found.", "code": "API0021"}
+            return 200, match[0]
+        if path == "/api/v2/cancel_order/":
+            doc = self.canceled.get(params.get("id"))
+            if doc is None:
+                return 404, {"status": "error", "reason": "Order not found.", "code": "API5014"}
+            return 200, doc
+        return 404, {"status": "error", "reason": f"unknown endpoint {path}", "code": "API0000"}
 
 
 if __name__ == "__main__":
